@@ -2,6 +2,561 @@
 //! variations.rs / gvar.rs / cvar.rs / hvar.rs / vvar.rs / mvar.rs / avar.rs (tuple variation headers, shared / private point numbers, phantom deltas, DeltaSetIndexMap, ItemVariationStore deltas)
 //! with Model/HandVar.lean (`hv.*` driver commands), on generator-based inputs with truncations and
 //! boundary fields; plus the group's own byte-level oracles.
+//!
+//! Every section: a generator of structurally valid tables with hostile-but-parsable shapes mixed in
+//! (copied from / modelled on the no-model group `vars`), `variants` (every prefix truncation, every
+//! registered count / offset / length field at boundary values, random flips), the real call inside
+//! `catch`, a canonical rendering that the Lean driver reproduces from the bytes alone, and
+//! model-independent oracles on the real result (no panic, iteration bounds, slices inside the data).
 use super::*;
+use font_types::{F2Dot14, GlyphId};
+use read_fonts::tables::cvar::Cvar;
+use read_fonts::tables::variations::{Tuple, TupleDelta, TupleIndex, TupleVariation, TupleVariationCount, TupleVariationData, TupleVariationHeader};
+use read_fonts::{FontData, FontRead, ReadError};
 
-pub fn run(_ctx: &mut Ctx) {}
+// ------------------------------------------------------------------------------------------------
+// shared helpers
+
+/// `Drv.C01Iter.fnv`
+fn fnv(xs: impl IntoIterator<Item = u64>) -> u64 {
+    let mut h = 0xcbf2_9ce4_8422_2325u64;
+    for x in xs {
+        h = (h ^ x).wrapping_mul(0x0000_0100_0000_01b3);
+    }
+    h
+}
+
+fn err_str(e: &ReadError) -> String {
+    match e {
+        ReadError::OutOfBounds => "eO".into(),
+        ReadError::NullOffset => "eN".into(),
+        ReadError::InvalidFormat(n) => format!("eF{n}"),
+        ReadError::MalformedData(_) => "eM".into(),
+        ReadError::InvalidCollectionIndex(i) => format!("eI{i}"),
+        ReadError::MetricIsMissing(_) => "eT".into(),
+        other => format!("e?{other:?}"),
+    }
+}
+
+/// every prefix truncation, every registered field at boundary values, random flips
+fn variants(rng: &mut Rng, b: &B, flips: usize) -> Vec<Vec<u8>> {
+    let base = &b.v;
+    let n = base.len();
+    let mut out = vec![base.clone()];
+    for c in 0..n {
+        out.push(base[..c].to_vec());
+    }
+    for (p, w) in &b.fields {
+        if *p + *w as usize > n {
+            continue;
+        }
+        let max = (1u64 << (8 * *w as u32)) - 1;
+        let cur = get_be(base, *p, *w);
+        let rest = (n - *p) as u64;
+        let mut vals = vec![0, 1, max - 1, max, max / 2, max / 2 + 1, n as u64, n as u64 + 1, (n as u64).saturating_sub(1), rest, rest + 1, rest / 2, cur.wrapping_add(1), cur.wrapping_sub(1), cur.wrapping_mul(2)];
+        vals.sort();
+        vals.dedup();
+        for v in vals {
+            let v = v & max;
+            if v == cur {
+                continue;
+            }
+            let mut m = base.clone();
+            put_be(&mut m, *p, *w, v);
+            out.push(m);
+        }
+    }
+    for _ in 0..flips {
+        if n == 0 {
+            break;
+        }
+        let mut m = base.clone();
+        for _ in 0..1 + rng.below(3) {
+            let p = rng.below(n as u64) as usize;
+            m[p] = match rng.below(4) {
+                0 => 0,
+                1 => 0xFF,
+                2 => m[p] ^ (1 << rng.below(8)),
+                _ => rng.next() as u8,
+            };
+        }
+        out.push(m);
+    }
+    out
+}
+
+/// the slice lies inside `table` (empty slices are exempt: `Default` tuples point nowhere)
+fn inside<T>(table: &[u8], s: &[T]) -> bool {
+    if s.is_empty() {
+        return true;
+    }
+    let a = s.as_ptr() as usize;
+    let e = a + std::mem::size_of_val(s);
+    let r = table.as_ptr_range();
+    r.start as usize <= a && e <= r.end as usize
+}
+
+fn rcoord(rng: &mut Rng) -> i16 {
+    match rng.below(9) {
+        0 => 0,
+        1 => 0x4000,
+        2 => -0x4000,
+        3 => 0x2000,
+        4 => -0x2000,
+        5 => 0x1000,
+        6 => *rng.pick(&[1i16, -1, 0x7FFF, -0x8000, 0x4001, -0x4001, 0x3FFF]),
+        _ => rng.next() as i16,
+    }
+}
+
+fn rcoords(rng: &mut Rng, axis_count: u16) -> Vec<i16> {
+    let n = match rng.below(6) {
+        0 => axis_count.saturating_sub(1),
+        1 => axis_count.saturating_add(1).min(100),
+        _ => axis_count.min(100),
+    };
+    (0..n).map(|_| rcoord(rng)).collect()
+}
+
+/// the trailing coordinate arguments of a request line (nothing for an empty slice)
+fn coord_args(cs: &[i16]) -> String {
+    cs.iter().map(|c| format!(" {c}")).collect()
+}
+
+fn f2(cs: &[i16]) -> Vec<F2Dot14> {
+    cs.iter().map(|c| F2Dot14::from_bits(*c)).collect()
+}
+
+// ------------------------------------------------------------------------------------------------
+// packed point numbers + packed deltas + tuple variation store generator (after `vars::tuple_store`)
+
+fn packed_deltas(vals: &[i32], rng: &mut Rng) -> Vec<u8> {
+    let mut out = vec![];
+    let mut i = 0;
+    while i < vals.len() {
+        let max_run = (vals.len() - i).min(64);
+        let run = 1 + rng.below(max_run as u64) as usize;
+        let chunk = &vals[i..i + run];
+        let all_zero = chunk.iter().all(|v| *v == 0);
+        let fits8 = chunk.iter().all(|v| (-128..=127).contains(v));
+        let fits16 = chunk.iter().all(|v| (-32768..=32767).contains(v));
+        if all_zero && rng.chance(3, 4) {
+            out.push(0x80 | (run as u8 - 1));
+        } else if fits8 && rng.chance(3, 4) {
+            out.push(run as u8 - 1);
+            for v in chunk {
+                out.push(*v as i8 as u8);
+            }
+        } else if fits16 && rng.chance(3, 4) {
+            out.push(0x40 | (run as u8 - 1));
+            for v in chunk {
+                out.extend_from_slice(&(*v as i16).to_be_bytes());
+            }
+        } else {
+            out.push(0xC0 | (run as u8 - 1));
+            for v in chunk {
+                out.extend_from_slice(&v.to_be_bytes());
+            }
+        }
+        i += run;
+    }
+    out
+}
+
+/// packed point numbers; returns the number of points (0 = all points)
+fn packed_points(rng: &mut Rng) -> (Vec<u8>, usize) {
+    match rng.below(9) {
+        0 | 1 => return (vec![0], 0),
+        2 => return (vec![0x80, 0x00], 0),
+        _ => {}
+    }
+    let n: usize = match rng.below(7) {
+        0 => 1,
+        1 => 126 + rng.below(5) as usize,
+        2 => 2,
+        _ => 1 + rng.below(10) as usize,
+    };
+    let mut out = vec![];
+    if n < 128 && rng.chance(5, 6) {
+        out.push(n as u8);
+    } else {
+        out.push(0x80 | (n >> 8) as u8);
+        out.push(n as u8);
+    }
+    let mut i = 0;
+    while i < n {
+        let run = 1 + rng.below((n - i).min(128) as u64) as usize;
+        let words = rng.chance(1, 4);
+        out.push((run as u8 - 1) | if words { 0x80 } else { 0 });
+        for _ in 0..run {
+            if words {
+                let d = if rng.chance(1, 8) { rng.next() as u16 } else { rng.below(300) as u16 };
+                out.extend_from_slice(&d.to_be_bytes());
+            } else {
+                out.push(if rng.chance(1, 6) { 0 } else { rng.below(4) as u8 + rng.chance(1, 10) as u8 * 200 });
+            }
+        }
+        i += run;
+    }
+    if rng.chance(1, 10) && out.len() > 2 {
+        let cut = 1 + rng.below(out.len() as u64 - 1) as usize;
+        out.truncate(cut);
+    }
+    (out, n)
+}
+
+fn rdelta(rng: &mut Rng) -> i32 {
+    match rng.below(12) {
+        0 => rng.next() as i32,
+        1 => i32::MAX,
+        2 => i32::MIN,
+        3 => 0,
+        4 => rng.range(-40000, 40000) as i32,
+        _ => rng.range(-200, 200) as i32,
+    }
+}
+
+/// `[tupleVariationCount][dataOffset][headers…][serialized data]`; `base` = bytes of the enclosing
+/// table in front of the count field (the data offset is relative to the table start)
+fn tuple_store(rng: &mut Rng, axis_count: u16, is_point: bool, n_shared: u16, base: usize, n_points: usize) -> B {
+    let n_tuples = match rng.below(7) {
+        0 => 0,
+        1 => 1,
+        _ => 1 + rng.below(4) as usize,
+    };
+    let shared_points = rng.chance(1, 2);
+    let mut ser: Vec<u8> = vec![];
+    let mut shared_count = 0usize;
+    if shared_points {
+        let (p, n) = packed_points(rng);
+        ser.extend(p);
+        shared_count = n;
+    }
+    let mut headers = B::new();
+    for _ in 0..n_tuples {
+        let mut ti: u16 = 0;
+        let embedded = if n_shared == 0 { rng.chance(7, 8) } else { rng.chance(1, 2) };
+        if embedded {
+            ti |= TupleIndex::EMBEDDED_PEAK_TUPLE | (rng.below(3) as u16);
+        } else {
+            ti |= match rng.below(8) {
+                0 => n_shared,
+                1 => 0x0FFF,
+                _ => rng.below(n_shared.max(1) as u64) as u16,
+            } & TupleIndex::TUPLE_INDEX_MASK;
+        }
+        let inter = rng.chance(1, 3);
+        if inter {
+            ti |= TupleIndex::INTERMEDIATE_REGION;
+        }
+        let private = if shared_points { rng.chance(1, 3) } else { rng.chance(3, 4) };
+        if private {
+            ti |= TupleIndex::PRIVATE_POINT_NUMBERS;
+        }
+        if rng.chance(1, 12) {
+            ti |= 0x1000;
+        }
+        let mut body = vec![];
+        let mut count = shared_count;
+        if private {
+            let (p, n) = packed_points(rng);
+            body.extend(p);
+            count = n;
+        }
+        let n_vals = if count == 0 { n_points } else { count } * if is_point { 2 } else { 1 };
+        let n_vals = match rng.below(10) {
+            0 => n_vals.saturating_sub(1),
+            1 => n_vals + 1,
+            2 => n_vals / 2,
+            _ => n_vals,
+        };
+        let vals: Vec<i32> = (0..n_vals).map(|_| rdelta(rng)).collect();
+        body.extend(packed_deltas(&vals, rng));
+        let size = match rng.below(14) {
+            0 => body.len() + 1,
+            1 => body.len().saturating_sub(1),
+            2 => 0xFFFF,
+            _ => body.len(),
+        };
+        headers.f16(size as u16).f16(ti);
+        let peaks: Vec<i16> = (0..axis_count).map(|_| rcoord(rng)).collect();
+        if embedded {
+            for p in &peaks {
+                headers.i16(*p);
+            }
+        }
+        if inter {
+            let hostile = rng.chance(1, 5);
+            let mut starts = vec![];
+            let mut ends = vec![];
+            for p in &peaks {
+                if hostile {
+                    starts.push(rcoord(rng));
+                    ends.push(rcoord(rng));
+                } else {
+                    starts.push(p.saturating_sub(rng.below(0x3000) as i16));
+                    ends.push(p.saturating_add(rng.below(0x3000) as i16));
+                }
+            }
+            for s in starts {
+                headers.i16(s);
+            }
+            for e in ends {
+                headers.i16(e);
+            }
+        }
+        ser.extend(body);
+    }
+    let mut b = B::new();
+    let count = match rng.below(12) {
+        0 => n_tuples + 1,
+        1 => n_tuples.saturating_sub(1),
+        2 => 0x0FFF,
+        _ => n_tuples,
+    };
+    b.f16(count as u16 | if shared_points { TupleVariationCount::SHARED_POINT_NUMBERS } else { 0 } | if rng.chance(1, 12) { 0x4000 } else { 0 });
+    b.f16((base + 4 + headers.len()) as u16);
+    b.append(&headers);
+    b.bytes(&ser);
+    if rng.chance(1, 6) {
+        b.bytes(&rng.bytes(3));
+    }
+    b
+}
+
+// ------------------------------------------------------------------------------------------------
+// rendering of tuples / tuple variation data (`Drv.C01HandVar.renderTuple`, `renderTvd`)
+
+fn tup_digest(t: &Tuple) -> String {
+    format!("{}.{}", t.len(), fnv(t.values().iter().map(|v| v.get().to_bits() as u16 as u64)))
+}
+
+fn opt_tup(t: &Option<Tuple>) -> String {
+    match t {
+        Some(t) => tup_digest(t),
+        None => "n".into(),
+    }
+}
+
+/// what the oracles need to know about one walk
+#[derive(Default)]
+struct Seen {
+    outside: Option<String>,
+    over: Option<String>,
+}
+
+fn render_tuple<T: TupleDelta>(table: &[u8], t: &TupleVariation<T>, coords: &[F2Dot14], parts: &dyn Fn(&T) -> [u64; 3], seen: &mut Seen) -> String {
+    let pk = t.peak();
+    let is = t.intermediate_start();
+    let ie = t.intermediate_end();
+    for (name, tup) in [("peak", Some(&pk)), ("intermediate_start", is.as_ref()), ("intermediate_end", ie.as_ref())] {
+        if let Some(tup) = tup {
+            if !inside(table, tup.values()) && seen.outside.is_none() {
+                seen.outside = Some(format!("{name} tuple of {} values outside the table", tup.len()));
+            }
+        }
+    }
+    let sc = match t.compute_scalar(coords) {
+        Some(f) => f.to_bits().to_string(),
+        None => "n".into(),
+    };
+    let f32s = if t.compute_scalar_f32(coords).is_some() { "s" } else { "n" };
+    let all = t.has_deltas_for_all_points() as u8;
+    let pn = t.point_numbers();
+    let pts = format!("{}.{}", pn.len(), fnv(pn.take(300).map(|p| p as u64)));
+    // every byte of packed deltas yields at most 64 values
+    let cap = 64 * table.len() + 65;
+    let mut n = 0usize;
+    let mut h = 0xcbf2_9ce4_8422_2325u64;
+    for d in t.deltas() {
+        n += 1;
+        if n > cap {
+            if seen.over.is_none() {
+                seen.over = Some(format!("deltas: more than {cap} items"));
+            }
+            break;
+        }
+        for x in parts(&d) {
+            h = (h ^ x).wrapping_mul(0x0000_0100_0000_01b3);
+        }
+    }
+    format!("{}:{}:{}:{}:{}:{}:{}:{}.{}", tup_digest(&pk), opt_tup(&is), opt_tup(&ie), sc, f32s, all, pts, n, h)
+}
+
+fn render_tvd<'a, T: TupleDelta>(table: &[u8], count_bits: u16, shared_pts: String, tvd: &TupleVariationData<'a, T>, coords: &'a [F2Dot14], parts: &dyn Fn(&T) -> [u64; 3], seen: &mut Seen) -> String {
+    // at most `count & 0x0FFF` tuples, each with a header of at least 4 bytes
+    let cap = ((count_bits & 0x0FFF) as usize).min(table.len() / 4);
+    let mut out = vec![];
+    let mut n = 0usize;
+    for t in tvd.tuples() {
+        n += 1;
+        if n > cap {
+            if seen.over.is_none() {
+                seen.over = Some(format!("tuples: more than {cap} items"));
+            }
+            break;
+        }
+        out.push(render_tuple(table, &t, coords, parts, seen));
+    }
+    let mut act = vec![];
+    for (_, s) in tvd.active_tuples_at(coords) {
+        act.push(s.to_bits() as u32 as u64);
+        if act.len() > cap {
+            if seen.over.is_none() {
+                seen.over = Some(format!("active_tuples_at: more than {cap} items"));
+            }
+            break;
+        }
+    }
+    let head = format!("{} {} {} a{}.{}", count_bits, shared_pts, n, act.len(), fnv(act.iter().copied()));
+    std::iter::once(head).chain(out).collect::<Vec<_>>().join(" | ")
+}
+
+/// record one case + the oracles of the call
+fn settle(ctx: &mut Ctx, req: String, bytes: &[u8], r: Result<(String, Seen), String>) {
+    PROGRESS.fetch_add(1, Ordering::Relaxed);
+    match r {
+        Ok((s, seen)) => {
+            ctx.oracle("no-panic", true, String::new, String::new);
+            ctx.oracle("iter-bounded", seen.over.is_none(), || format!("{req} [{}]", hex(bytes)), || seen.over.clone().unwrap_or_default());
+            ctx.oracle("slice-inside-data", seen.outside.is_none(), || format!("{req} [{}]", hex(bytes)), || seen.outside.clone().unwrap_or_default());
+            ctx.case(req, s);
+        }
+        Err(m) => ctx.oracle("no-panic", false, || format!("{req} [{}]", hex(bytes)), || m.clone()),
+    }
+}
+
+// ------------------------------------------------------------------------------------------------
+// TupleVariationHeader: `hv.tvhdr <axis_count> <hex>`
+
+fn ask_tvhdr(ctx: &mut Ctx, ac: u16, bytes: &[u8]) {
+    let req = format!("hv.tvhdr {} {}", ac, hex(bytes));
+    let r = catch(|| {
+        let mut seen = Seen::default();
+        let s = match TupleVariationHeader::read(FontData::new(bytes), ac) {
+            Err(e) => err_str(&e),
+            Ok(h) => {
+                let pk = h.peak_tuple();
+                let is = h.intermediate_start_tuple();
+                let ie = h.intermediate_end_tuple();
+                for t in [&pk, &is, &ie].into_iter().flatten() {
+                    if t.len() != ac as usize && seen.over.is_none() {
+                        seen.over = Some(format!("embedded tuple with {} values for {} axes", t.len(), ac));
+                    }
+                    if !inside(bytes, t.values()) && seen.outside.is_none() {
+                        seen.outside = Some(format!("embedded tuple of {} values outside the header data", t.len()));
+                    }
+                }
+                let both = match h.intermediate_tuples() {
+                    Some((a, b)) => format!("{}+{}", tup_digest(&a), tup_digest(&b)),
+                    None => "n".into(),
+                };
+                format!("{} {} {} {} {} {}", h.variation_data_size(), h.tuple_index().bits(), opt_tup(&pk), opt_tup(&is), opt_tup(&ie), both)
+            }
+        };
+        (s, seen)
+    });
+    settle(ctx, req, bytes, r);
+}
+
+fn run_tvhdr(ctx: &mut Ctx) {
+    for flags in [0u16, 0x8000, 0x4000, 0xC000, 0x2000, 0xE000, 0xFFFF, 0x0FFF, 0x8001] {
+        for ac in [0u16, 1, 2, 5] {
+            let mut b = B::new();
+            b.f16(ctx.rng.below(40) as u16).f16(flags);
+            let n = (flags & 0x8000 != 0) as usize + 2 * (flags & 0x4000 != 0) as usize;
+            for _ in 0..n * ac as usize {
+                b.i16(rcoord(&mut ctx.rng));
+            }
+            b.bytes(&rbytes(&mut ctx.rng, 4));
+            for v in variants(&mut ctx.rng, &b, 4) {
+                for a in [ac, ac + 1, ac.saturating_sub(1)] {
+                    ask_tvhdr(ctx, a, &v);
+                }
+            }
+            ctx.count(&format!("tvhdr.flags{:x}", flags >> 12));
+        }
+    }
+    // axis counts far beyond the data
+    for ac in [0x7FFFu16, 0x8000, 0xFFFF] {
+        for flags in [0x8000u16, 0xC000, 0x4000, 0] {
+            let mut v = vec![0, 4];
+            v.extend_from_slice(&flags.to_be_bytes());
+            v.extend_from_slice(&[1, 2, 3, 4, 5, 6, 7]);
+            ask_tvhdr(ctx, ac, &v);
+        }
+    }
+}
+
+// ------------------------------------------------------------------------------------------------
+// cvar: `hv.cvar <axis_count> <hex> <coords…>`
+
+fn ask_cvar(ctx: &mut Ctx, ac: u16, coords: &[i16], bytes: &[u8]) {
+    let req = format!("hv.cvar {} {}{}", ac, hex(bytes), coord_args(coords));
+    let cs = f2(coords);
+    let r = catch(|| {
+        let mut seen = Seen::default();
+        let s = match Cvar::read(FontData::new(bytes)).and_then(|c| c.variation_data(ac).map(|d| (c, d))) {
+            Err(e) => err_str(&e),
+            Ok((cvar, tvd)) => {
+                let bits = cvar.tuple_variation_count().bits();
+                // the shared point numbers are not exposed: a tuple without private numbers shows them
+                render_tvd(bytes, bits, shared_pts_of(bytes, 4, 6), &tvd, &cs, &|d| [d.position as u64, d.value as u32 as u64, 0], &mut seen)
+            }
+        };
+        (s, seen)
+    });
+    settle(ctx, req, bytes, r);
+}
+
+/// number of shared points as the first two bytes of the serialized data say (`-` = no shared
+/// points); independent re-computation from the bytes: count field at `cpos`, data offset at `opos`
+fn shared_pts_of(table: &[u8], cpos: usize, opos: usize) -> String {
+    let count = u16::from_be_bytes([table[cpos], table[cpos + 1]]);
+    if count & 0x8000 == 0 {
+        return "-".into();
+    }
+    let off = u16::from_be_bytes([table[opos], table[opos + 1]]) as usize;
+    let d = &table[off..];
+    let n = match d.first() {
+        None | Some(0) => 0,
+        Some(b) if *b < 128 => *b as u16,
+        Some(b) => d.get(1).map(|c| (((*b as u16) << 8) | *c as u16) & 0x7FFF).unwrap_or(0),
+    };
+    n.to_string()
+}
+
+fn run_cvar(ctx: &mut Ctx) {
+    let rounds = if ctx.thorough { 60 } else { 12 };
+    for round in 0..rounds {
+        let ac = match round % 6 {
+            0 => 0,
+            1 => 1,
+            5 => 7,
+            _ => 1 + ctx.rng.below(3) as u16,
+        };
+        let mut b = B::new();
+        b.u16(1).u16(0);
+        let n_cvt = 1 + ctx.rng.below(12) as usize;
+        let store = tuple_store(&mut ctx.rng, ac, false, 0, 4, n_cvt);
+        b.append(&store);
+        let coords = rcoords(&mut ctx.rng, ac);
+        for (k, v) in variants(&mut ctx.rng, &b, 8).into_iter().enumerate() {
+            ask_cvar(ctx, ac, &coords, &v);
+            if k == 0 {
+                // other axis counts and coordinate slices on the intact table
+                ask_cvar(ctx, ac + 1, &coords, &v);
+                ask_cvar(ctx, ac.saturating_sub(1), &coords, &v);
+                ask_cvar(ctx, ac, &[], &v);
+                ask_cvar(ctx, 0xFFFF, &coords, &v);
+            }
+        }
+        ctx.count(&format!("cvar.axes{}", ac.min(4)));
+    }
+}
+
+pub fn run(ctx: &mut Ctx) {
+    run_tvhdr(ctx);
+    run_cvar(ctx);
+    let _ = GlyphId::new(0);
+}
